@@ -33,3 +33,7 @@ def check(tier, seed, t0):
 
 
 replay = _mk.make_replay(PROP, MON, WEIGHTS, {"pool": 7, "audit_every": 6})
+
+
+# (what later rounds of seeded changes added to the workload; part of the evidence's description of the check)
+RULE += "; " + 'a PROPPATCH that sets a property to the value it already has adds no commit; the branch of a tree-git collection renamed with the git CLI under the running server, then a write'
